@@ -27,6 +27,7 @@ fn streams() -> Vec<Stream> {
         Stream { name: "scenarios", count: (25_000, 800_000), exhaustive: false, run: |c, r, _| scenario(c, r, Focus::default(), c07_monitor) },
         Stream { name: "scenarios-tight", count: (20_000, 600_000), exhaustive: false, run: tight },
         Stream { name: "add-output-edge", count: (30_000, 800_000), exhaustive: false, run: add_output_edge },
+        Stream { name: "output-builder-min-coin", count: (40_000, 1_000_000), exhaustive: false, run: output_builder_min_coin },
     ]
 }
 
@@ -146,6 +147,82 @@ fn fn_random(ctx: &mut Ctx, r: &mut Rng, _i: u64) {
 }
 
 /// add_output must reject an explicit output just below its bound and accept one at the bound
+/// the output builder's own minimum-coin helper (also behind add_mint_asset_and_output_min_required_coin):
+/// the output it builds carries at least coins_per_byte x (160 + its serialized size), whatever
+/// combination of datum hash / inline datum / script reference / assets it holds
+fn output_builder_min_coin(ctx: &mut Ctx, r: &mut Rng, _i: u64) {
+    ctx.eval();
+    let cpb = *r.pick(&CPBS[1..5]);
+    let mut g = G::new(r, 2, 3);
+    let o = g.tx_output();
+    // every address length: now and then the longest Shelley address (a pointer address with 10-byte pointers)
+    let addr = if g.r.below(6) == 0 {
+        let big = BigNum::from(u64::MAX - g.r.below(1000));
+        PointerAddress::new(g.r.below(2) as u8, &g.credential(), &Pointer::new_pointer(&big, &big, &big)).to_address()
+    } else {
+        o.address()
+    };
+    let mut b = TransactionOutputBuilder::new().with_address(&addr);
+    let mut shape = String::new();
+    if let Some(d) = o.data_hash() {
+        b = b.with_data_hash(&d);
+        shape.push_str("+datum-hash");
+    }
+    if let Some(d) = o.plutus_data() {
+        b = b.with_plutus_data(&d);
+        shape.push_str("+inline-datum");
+    }
+    if let Some(sr) = o.script_ref() {
+        b = b.with_script_ref(&sr);
+        shape.push_str("+script-ref");
+    }
+    let ma = o.amount().multiasset().unwrap_or_else(MultiAsset::new);
+    if ma.len() > 0 {
+        shape.push_str("+assets");
+    }
+    let dc = DataCost::new_coins_per_byte(&BigNum::from(cpb));
+    let built = guard(|| b.next().and_then(|n| n.with_asset_and_min_required_coin_by_utxo_cost(&ma, &dc)).and_then(|n| n.build()));
+    let out = match built {
+        Ok(Ok(o)) => o,
+        Ok(Err(_)) => {
+            ctx.bucket("output-builder.refused");
+            return;
+        }
+        Err(p) => {
+            ctx.violation(&format!("output-builder/{}", p.sig()), json!({"output": hx(&guard(|| o.to_bytes()).unwrap_or_default())}));
+            return;
+        }
+    };
+    let ob = guard(|| out.to_bytes()).unwrap_or_default();
+    ctx.nontrivial_bytes("ob", &ob);
+    let l = match enc_len(&out) {
+        Some(l) => l,
+        None => return,
+    };
+    let coin: u64 = out.amount().coin().into();
+    if (coin as u128) < cpb as u128 * (160 + l as u128) {
+        // one known cause is keyed by itself: the helper sizes the output with the calculator's 57-byte
+        // placeholder address instead of the output's own, so a longer address is under-funded by
+        // coins_per_byte x (extra address bytes) (+ the width feedback of the coin itself)
+        let alen = guard(|| out.address().to_bytes().len()).unwrap_or(0) as u128;
+        let short = cpb as u128 * (160 + l as u128) - coin as u128;
+        let by_address = alen > 57 && short <= cpb as u128 * (alen - 57 + 4);
+        let cls = if by_address {
+            "address-longer-than-the-57-byte-placeholder".to_string()
+        } else if shape.is_empty() {
+            "plain".to_string()
+        } else {
+            shape[1..].to_string()
+        };
+        ctx.violation(
+            &format!("with_asset_and_min_required_coin_by_utxo_cost/built-output-below-min-ada/{}", cls),
+            json!({"output": hx(&ob), "coins_per_byte": cpb, "coin": coin.to_string(), "needs": (cpb as u128 * (160 + l as u128)).to_string()}),
+        );
+    } else {
+        ctx.bucket(&format!("output-builder.ok.{}", if shape.is_empty() { "plain" } else { &shape[1..] }));
+    }
+}
+
 fn add_output_edge(ctx: &mut Ctx, r: &mut Rng, _i: u64) {
     ctx.eval();
     let cpb = *r.pick(&[1u64, 4310, 34_482]);
